@@ -1,4 +1,4 @@
-import Dnp3.Gen.Link
+import Dnp3.Gen.CrcTable
 /-!
 # CRC-16/DNP — model of `dnp3/src/link/crc.rs`
 
